@@ -2,13 +2,15 @@
 from propcommon import COMMON_MODELLED
 PROP = dict(
         gotest="TestC05",
+        translator="arithC05",
+        extra_props=["ArithTieC05"],
         extra_gotests=[("TestZdec", "Zdec")],
         model="coq/Models/AmmJoinExit.v (exact over Z: MaximalExactRatioJoin/CalcJoinPoolNoSwapShares/JoinPool all-asset incl. the sdk.Coins "
               "semantics for user-supplied coins, GetMaximalNoSwapLPAmount, CalcExitPool pro-rata + processExitPool, keeper.ExitPool guards, "
               "Pool.TVL, oracle single-sided join/exit kernels with the weight-breaking fee taken from the implementation, "
               "single-asset weighted join around Pow)",
         coq_deps=["Base/", "Models/AmmJoinExit.v", "Proofs/AmmJoinExitProofs.v", "Run/AmmJoinExitRun.v", "Models/AmmSwap.v", "Proofs/AmmSwapProofs.v",
-                  "Proofs/AmmSwapProofs2.v", "Proofs/PowBounds.v", "Proofs/PowSeries.v", "Proofs/PowJoin.v", "Props/C05.v"],
+                  "Proofs/AmmSwapProofs2.v", "Proofs/PowBounds.v", "Proofs/PowSeries.v", "Proofs/PowJoin.v", "Props/C05.v", "Generated/ArithC05.v", "Proofs/ArithTieTac.v", "Proofs/ArithTieC05.v", "Props/ArithTieC05.v"],
         rule="pure cases: types.Pool values with 2-4 assets, reserves 1..1e30 per decade (also 0, 1, 2..9), supplies 1..1e6 and 1e18..1e30, "
              "deposits as a fraction of the pool +-1 / relative to the reserve (1, 0.1%, 1/3, 1/2, all-1, all, all+1, 2-10x, 10^-k) / per decade, "
              "requested shares 0, -5, 1, S/1e18, relative, up to 900 x supply, exiting shares 0, negative, relative, >= supply; ~6% malformed coin "
@@ -16,7 +18,11 @@ PROP = dict(
              "accounted balances, exits aimed at exactly the whole reserve; app histories: 8-15 MsgJoinPool/MsgExitPool on the real app "
              "(constant-product and oracle pool, imbalanced oracle pools, duplicate-denom MaxAmountsIn, 1-hour lock waits); "
              "distinct = distinct inputs; non-trivial = the operation succeeded",
-        trusted_base=["the weight-breaking fee and Pow are inputs resolved from the implementation (GetWeightBreakingFee, Pow are not modelled)",
+        trusted_base=["tools/gotrans arith (Go AST + go/types -> Gallina over Base/Zdec.v): the method table of coq/Generated/ARITH_README.md; ties the per-coin / per-asset kernels of "
+                      "MaximalExactRatioJoin, CalcExitPool (pro-rata and oracle branch), CalcExitValueWithoutSlippage, CalcJoinValueWithoutSlippage and the shares of the oracle JoinPool "
+                      "to the model; the loops over coins / assets, the sdk.Coins operations, the single-asset weighted join, and what TVL / GetTotalShares / "
+                      "AmountOfNoDenomValidation / GetWeightBreakingFee return, are covered by the correspondence run only",
+                      "the weight-breaking fee and Pow are inputs resolved from the implementation (GetWeightBreakingFee, Pow are not modelled)",
                       "|Int| < 2^256 range panics are not modelled (overflowing generated cases are skipped and counted)",
                       "pools with a zero reserve are outside the model of GetMaximalNoSwapLPAmount (unreachable: UpdatePoolAssetBalance rejects them)"],
         modelled="x/amm join/exit share and amount arithmetic as Gallina functions over Z; " + COMMON_MODELLED,
